@@ -7,6 +7,6 @@ require (
 	pgregory.net/rapid v1.3.0
 )
 
-require github.com/awalterschulze/gographviz v2.0.3+incompatible // indirect
+require github.com/awalterschulze/gographviz v2.0.3+incompatible
 
 replace github.com/acekingke/yaccgo => /repo
